@@ -29,10 +29,24 @@
 (* value "any" (never compared):                                           *)
 (*  - whether a room first seen through a chat/join/ticker notification is *)
 (*    private;                                                             *)
-(*  - whether revoking a membership also ends operatorship (opsAny);       *)
 (*  - what is remembered about a user while nothing references the user    *)
 (*    object (status, stats; the privilege flag falls back to the last     *)
 (*    PrivilegedUsers list or is remembered - both are accepted).          *)
+(*                                                                         *)
+(* Revoking a membership ends operatorship, whatever the member set said:  *)
+(* an operator is a member with extra rights (SOULSEEK.rst "Granting       *)
+(* Operator Privileges": the grantee "must first be a member"), and when   *)
+(* the owner revokes an operator's membership the server announces only    *)
+(* the membership revocation ("Function: Revoke Membership") - it is the   *)
+(* one notification from which the end of the role can be learnt.  The     *)
+(* operator set is announced independently of the member set (JoinRoom,    *)
+(* operator list / grants, RoomList), so the fold removes from both sets   *)
+(* unconditionally.                                                        *)
+(*                                                                         *)
+(* Values: a notification carries v; the status code on the wire is v      *)
+(* (0 offline, 1 away, 2 online), the stats are an abstract value the      *)
+(* binding maps to four numbers.  Vals contains 0 so that the falsy status *)
+(* follows a truthy one; the binding does the same for every stats field.  *)
 (***************************************************************************)
 EXTENDS Integers, Sequences, FiniteSets, TLC
 
@@ -89,7 +103,7 @@ VARIABLES
 vars == <<F, M, tracked, blk, n>>
 
 FRoom0 == [known |-> FALSE, joined |-> FALSE, users |-> {}, owner |-> None, members |-> {}, ops |-> {},
-           opsAny |-> {}, tickers |-> NoTickers, private |-> "any"]
+           tickers |-> NoTickers, private |-> "any"]
 FUser0 == [status |-> -1, stats |-> -1, priv |-> "no"]
 MRoom0 == [exists |-> FALSE, joined |-> FALSE, users |-> {}, owner |-> None, members |-> {}, ops |-> {},
            tickers |-> NoTickers, private |-> FALSE]
@@ -98,8 +112,10 @@ MUser0 == [alive |-> FALSE, status |-> -1, stats |-> -1, priv |-> FALSE]
 B3(b) == IF b THEN "yes" ELSE "no"
 
 \* after login: the own user is ONLINE (user/manager.py:473-475), tracked users got an AddUser reply
-FUserInit == [status |-> 2, stats |-> 0, priv |-> "no"]
-MUserInit == [alive |-> TRUE, status |-> 2, stats |-> 0, priv |-> FALSE]
+\* (stats value 9: different from every value a notification carries)
+InitStats == 9
+FUserInit == [status |-> 2, stats |-> InitStats, priv |-> "no"]
+MUserInit == [alive |-> TRUE, status |-> 2, stats |-> InitStats, priv |-> FALSE]
 
 Init ==
   /\ tracked \in TrackChoices
@@ -142,15 +158,13 @@ FListRoom(fr, c) ==
   IF c = "abs"
     THEN IF fr.joined
            \* "does not leave rooms": after login only public rooms with 5 or more users are listed
-           THEN [fr EXCEPT !.owner = IF @ = Me THEN None ELSE @, !.members = @ \ {Me},
-                           !.ops = @ \ {Me}, !.opsAny = @ \ {Me}]
+           THEN [fr EXCEPT !.owner = IF @ = Me THEN None ELSE @, !.members = @ \ {Me}, !.ops = @ \ {Me}]
            ELSE FRoom0
     ELSE [fr EXCEPT !.known = TRUE,
                     !.private = IF c = "pub" THEN "no" ELSE "yes",
                     !.owner = IF c = "own" THEN Me ELSE IF @ = Me THEN None ELSE @,
                     !.members = IF c \in {"mem", "memop"} THEN @ \cup {Me} ELSE @ \ {Me},
-                    !.ops = IF c = "memop" THEN @ \cup {Me} ELSE @ \ {Me},
-                    !.opsAny = @ \ {Me}]
+                    !.ops = IF c = "memop" THEN @ \cup {Me} ELSE @ \ {Me}]
 
 FoldRaw(f, nt) ==
   LET k == nt.kind
@@ -167,7 +181,7 @@ FoldRaw(f, nt) ==
     [] k = "UserLeftRoom" -> SetRoom([fr EXCEPT !.users = @ \ {u}])
     [] k = "JoinRoom" ->
          [f EXCEPT !.rooms[r] = [fr EXCEPT !.joined = TRUE, !.users = nt.set, !.owner = nt.own,
-                                           !.ops = IF nt.own = None THEN {} ELSE nt.ops, !.opsAny = {},
+                                           !.ops = IF nt.own = None THEN {} ELSE nt.ops,
                                            !.private = B3(nt.own # None)],
                    !.users = [x \in Users |-> IF x \in nt.set
                                                 THEN [f.users[x] EXCEPT !.status = nt.v, !.stats = nt.v]
@@ -179,15 +193,15 @@ FoldRaw(f, nt) ==
     [] k = "PrivateRoomGrantMembership" -> SetRoom([fr EXCEPT !.members = @ \cup {u}])
     [] k = "PrivateRoomMembershipGranted" -> SetRoom([fr EXCEPT !.members = @ \cup {Me}])
     [] k = "PrivateRoomRevokeMembership" ->
-         SetRoom([fr EXCEPT !.members = @ \ {u}, !.opsAny = @ \cup ({u} \cap fr.ops), !.ops = @ \ {u}])
+         SetRoom([fr EXCEPT !.members = @ \ {u}, !.ops = @ \ {u}])
     [] k = "PrivateRoomMembershipRevoked" ->
-         SetRoom([fr EXCEPT !.members = @ \ {Me}, !.opsAny = @ \cup ({Me} \cap fr.ops), !.ops = @ \ {Me}])
+         SetRoom([fr EXCEPT !.members = @ \ {Me}, !.ops = @ \ {Me}])
     [] k = "PrivateRoomMembers" -> SetRoom([fr EXCEPT !.members = nt.set])
-    [] k = "PrivateRoomOperators" -> SetRoom([fr EXCEPT !.ops = nt.set, !.opsAny = {}])
-    [] k = "PrivateRoomOperatorGranted" -> SetRoom([fr EXCEPT !.ops = @ \cup {Me}, !.opsAny = @ \ {Me}])
-    [] k = "PrivateRoomOperatorRevoked" -> SetRoom([fr EXCEPT !.ops = @ \ {Me}, !.opsAny = @ \ {Me}])
-    [] k = "PrivateRoomGrantOperator" -> SetRoom([fr EXCEPT !.ops = @ \cup {u}, !.opsAny = @ \ {u}])
-    [] k = "PrivateRoomRevokeOperator" -> SetRoom([fr EXCEPT !.ops = @ \ {u}, !.opsAny = @ \ {u}])
+    [] k = "PrivateRoomOperators" -> SetRoom([fr EXCEPT !.ops = nt.set])
+    [] k = "PrivateRoomOperatorGranted" -> SetRoom([fr EXCEPT !.ops = @ \cup {Me}])
+    [] k = "PrivateRoomOperatorRevoked" -> SetRoom([fr EXCEPT !.ops = @ \ {Me}])
+    [] k = "PrivateRoomGrantOperator" -> SetRoom([fr EXCEPT !.ops = @ \cup {u}])
+    [] k = "PrivateRoomRevokeOperator" -> SetRoom([fr EXCEPT !.ops = @ \ {u}])
     [] k = "RoomList" -> [f EXCEPT !.rooms = [x \in Rooms |-> FListRoom(f.rooms[x], nt.cat[x])]]
     [] k = "GetUserStatus" -> [f EXCEPT !.users[u] = [@ EXCEPT !.status = nt.v, !.priv = B3(nt.p)]]
     [] k = "GetUserStats" -> [f EXCEPT !.users[u] = [@ EXCEPT !.stats = nt.v]]
@@ -416,7 +430,7 @@ RoomDiff(m, f) ==
          \cup (IF m.users # f.users THEN {"users"} ELSE {})
          \cup (IF m.owner # f.owner THEN {"owner"} ELSE {})
          \cup (IF m.members # f.members THEN {"members"} ELSE {})
-         \cup (IF m.ops \ f.opsAny # f.ops \ f.opsAny THEN {"operators"} ELSE {})
+         \cup (IF m.ops # f.ops THEN {"operators"} ELSE {})
          \cup (IF m.tickers # f.tickers THEN {"tickers"} ELSE {})
          \cup (IF f.private # "any" /\ B3(m.private) # f.private THEN {"private"} ELSE {})
     ELSE IF f.joined \/ f.users # {} \/ f.owner # None \/ f.members # {} \/ f.ops # {} \/ f.tickers # NoTickers
@@ -466,7 +480,7 @@ TypeOK ==
   /\ \A r \in Rooms :
        /\ F.rooms[r].users \subseteq Users /\ F.rooms[r].owner \in Users \cup {None}
        /\ F.rooms[r].private \in {"yes", "no", "any"}
-       /\ F.rooms[r].ops \cap F.rooms[r].opsAny = {}
+       /\ F.rooms[r].ops \subseteq Users /\ F.rooms[r].members \subseteq Users
        /\ M.rooms[r].users \subseteq Users /\ M.rooms[r].private \in BOOLEAN
        /\ ~M.rooms[r].exists => M.rooms[r] = MRoom0
        /\ ~F.rooms[r].known => F.rooms[r] = FRoom0
